@@ -4,6 +4,7 @@ specification file given as first argument, then op lines on stdin; prints one
 result line per op line.
 -/
 import Scpi
+import Scpi.Spec.Decode
 
 open Scpi
 
@@ -488,6 +489,19 @@ def runOp (bs : List Built) (line : String) : String :=
     match fromHex hex with
     | some b => if validUtf8 b then "1" else "0"
     | none => "bad-op hex"
+  -- C04: the contract under which float responses decode (`FloatTextOk`), decided on the
+  -- model's own formatter; the harness evaluates the same contract on the implementation's.
+  | ["FLOATOK", ty, hex] =>
+    if !hex.startsWith "0x" then "bad-op args" else
+    match hexNat (hex.drop 2).toString with
+    | none => "bad-op hex"
+    | some bits =>
+      let go (f : FloatFmt) : String :=
+        if f.isNan bits || f.isInf bits then "na"
+        else if decide (Scpi.C04.FloatTextOk f bits) then "1" else "0"
+      if ty == "f32" then (if bits < 2 ^ 32 then go fmt32 else "bad-op val")
+      else if ty == "f64" then (if bits < 2 ^ 64 then go fmt64 else "bad-op val")
+      else "bad-op type"
   -- C13: the model's prediction for the number of heap allocations inside run/process is the
   -- constant 0 (every container is bounded: Props/C13); the op is only checked for shape.
   | "ALLOC" :: "RUN" :: name :: wr :: _ :: [] =>
